@@ -239,7 +239,15 @@ def hash_grid_search(log):
         want = 'OK (True, 1, 1, 1)'
         if o != want:
             return {'witness': {'expression': e, 'real_library': o, 'oracle_python': want}, 'grid_points': len(ns)}
-    return {'witness': None, 'grid_points': len(ns)}
+    # numbers inside tuple keys (write_hash path), incl. NaNs of different sign (equal in Starlark: all NaNs compare equal)
+    extra = []
+    for a, b in (('float("nan")', '-float("nan")'), ('1', '1.0'), ('0.0', '-0.0'), ('1 << 60', 'float(1 << 60)'), ('2.5', '2.5')):
+        extra.append('((%s, 1) == (%s, 1), {(%s, 1): 1}.get((%s, 1)), len(set([(%s, 1), (%s, 1)])))' % (a, b, a, b, a, b))
+    outs2 = eval_many(extra, log)
+    for e, o in zip(extra, outs2):
+        if o != 'OK (True, 1, 1)':
+            return {'witness': {'expression': e, 'real_library': o, 'expected': 'OK (True, 1, 1): equal keys are one key'}, 'grid_points': len(ns) + len(extra)}
+    return {'witness': None, 'grid_points': len(ns) + len(extra)}
 
 
 def int_float_grid_search(log):
